@@ -42,11 +42,12 @@ PLAIN = '{"nil", "err", "panic"}'
 # Outcome kinds: data the code might inspect; the requirement does not depend on them.
 KINDS = ('{"nil", "err", "deadline", "canceled", "wdeadline", "wcanceled", "join", "eof", '
          '"panic", "panicerr", "panicdl", "panicnil"}')
+TYPES = '{"ptr", "val", "func", "ncval", "zst"}'   # dynamic types of services
 PANICS = '{"panic", "panicerr", "panicdl", "panicnil"}'
 
 
 def sig_consts(maxn, maxpre=2, maxtrail=1, panic_aborts=False, kinds=False, reg=False, aliases=False,
-               outcomes=None, shut='{"INT", "QUIT", "TERM"}'):
+               outcomes=None, shut='{"INT", "QUIT", "TERM"}', types=False, dedup=False, splits=None):
     """kinds=True: the full alphabet of outcome kinds for up to 2 services, one
     non-plain kind at a time (mixed with nil/err/panic) for more.
     reg=True: every registration plan (all splits of 1..n into Add calls, fresh
@@ -56,7 +57,9 @@ def sig_consts(maxn, maxpre=2, maxtrail=1, panic_aborts=False, kinds=False, reg=
          "FullUpTo": 2 if kinds else 100, "PanicKinds": PANICS, "OtherSigs": '{"HUP", "USR1"}',
          "ShutSigs": shut, "MaxPre": maxpre, "TrailSigs": '{"HUP", "INT", "TERM"}',
          "MaxTrail": maxtrail, "PanicAborts": "TRUE" if panic_aborts else "FALSE",
-         "RegSplits": '{"any"}' if reg else '{"each"}',
+         "STypes": TYPES if types else '{"ptr"}', "TypesFullUpTo": 2 if types else 100,
+         "DedupByValue": "TRUE" if dedup else "FALSE",
+         "RegSplits": splits or ('{"any"}' if reg else '{"each"}'),
          "RegBufs": '{"fresh", "reuse"}' if reg else '{"fresh"}',
          "RegAfters": '{"keep", "zero", "decoy"}' if reg else '{"keep"}',
          "RegEmpties": "{FALSE, TRUE}" if reg else "{FALSE}",
@@ -64,14 +67,18 @@ def sig_consts(maxn, maxpre=2, maxtrail=1, panic_aborts=False, kinds=False, reg=
     return c
 
 
-def rw_consts(maxticks, tbd, close_late=False, stop_on_cancel=False, gen=False, extra_refreshes=False, max_extra=2):
-    c = {"MaxTicks": maxticks, "ROSChoices": "{TRUE, FALSE}", "RefOutcomes": '{"nil", "err"}',
+def rw_consts(maxticks, tbd, close_late=False, stop_on_cancel=False, gen=False, extra_refreshes=False, max_extra=2,
+              ctx_kinds='{"ctxerr", "wctxerr", "cause"}'):
+    # error kinds tied to the refresh context (its own ctx.Err(), wrapped, its cause) are used by the generator
+    outs = '{"nil", "err"}' if not gen else '{"nil", "err", %s}' % ctx_kinds[1:-1]
+    c = {"MaxTicks": maxticks, "ROSChoices": "{TRUE, FALSE}", "RefOutcomes": outs,
          "AllowTBD": "TRUE" if tbd else "FALSE", "CloseLate": "TRUE" if close_late else "FALSE",
          "SctxInit": '{"live", "cancelled"}', "StopOnCancel": "TRUE" if stop_on_cancel else "FALSE",
          "MaxExtra": max_extra, "ExtraRefreshes": "TRUE" if extra_refreshes else "FALSE"}
     if gen:
         c["CancelUpTo"] = 2
         c["ExtraChoices"] = "{0, 2}"
+        c["CtxKinds"] = ctx_kinds
     return c
 
 
@@ -87,12 +94,16 @@ def run(ctx):
                 "at least one service / one refresh")
     ctx.assumptions += [
         "signals reach the handler through the channel it registers with its SignalNotifier (capacity 1); a send waits for room",
+        "a service is a pointer, a comparable struct by value (equal fields: equal interface values), a func adapter, a "
+        "non-comparable struct by value or a pointer to a zero-size type; every REGISTRATION is owed one Shutdown",
         "a service outcome is nil, an error (plain, context.DeadlineExceeded/Canceled, wrapped, joined, io.EOF) or a "
         "panic (string, error value, DeadlineExceeded, nil); services return promptly",
         "the final refresh is held inside Refresh for a window (50/100 ms) during which the pending timer's tick is "
         "offered; also with a loop refresh in flight and right after Start",
         "TickBeatsDone is modelled, not provoked: whether a refresh for a tick already pending at Shutdown counts as "
         "'after Shutdown' is not settled by the statement",
+        "a refresh may fail with the error of its own (constructor-made) context after that context became done during "
+        "the refresh - its timeout fired, or Shutdown's context expired: an error like any other",
         "Start before Shutdown; Shutdown may be called again after it returned: such a call may panic (the code) or "
         "return, it must not cause a further Refresh",
         "the context passed to Start may be cancelled at any time (already at Start, right after it, while the worker "
@@ -118,11 +129,13 @@ def run(ctx):
     # Outcome kinds (errors the code might inspect, panic values): same invariants, kinds as environment choice.
     write_cfg(d / "SigMC_kinds.cfg", "SSpec", sig_consts(2 if q else 4, 0, 1, kinds=True), invariants=SIG_INV,
               properties=["LaterSignalsChangeNothing", "EventuallyReturns"])
-    ctx.tlc(d, "SignalHandler", "SigMC_kinds.cfg", label="signal-mc-kinds", timeout=1200)
+    if not q:   # quick: the generator run below checks the same invariants on every kind vector
+        ctx.tlc(d, "SignalHandler", "SigMC_kinds.cfg", label="signal-mc-kinds", timeout=1200)
     # Registration as actions: every plan of Add calls, the caller reusing / zeroing / overwriting its buffer.
     write_cfg(d / "SigMC_reg.cfg", "SSpec", sig_consts(3 if q else 4, 0, 0, reg=True, outcomes='{"nil", "err"}'),
               invariants=SIG_INV, properties=["LaterSignalsChangeNothing", "EventuallyReturns"])
-    ctx.tlc(d, "SignalHandler", "SigMC_reg.cfg", label="signal-mc-registration", timeout=1200)
+    if not q:   # quick: the generator run below checks the same invariants on every plan
+        ctx.tlc(d, "SignalHandler", "SigMC_reg.cfg", label="signal-mc-registration", timeout=1200)
     # A handler that keeps the caller's slice (`h.services = svcs` on the first Add), shown on the design.
     write_cfg(d / "SigMC_alias.cfg", "SSpec",
               sig_consts(3, 0, 0, reg=True, aliases=True, outcomes='{"nil"}', shut='{"TERM"}'),
@@ -135,6 +148,17 @@ def run(ctx):
                                "got %r" % r.violated)
         ctx.extra["design_level_registration_check"] = ("%s violated when Add keeps the caller's slice and the caller "
                                                         "reuses its buffer (as expected)" % r.violated)
+    # A handler that de-duplicates registrations through a map keyed by the service value, shown on the design.
+    write_cfg(d / "SigMC_dedup.cfg", "SSpec",
+              sig_consts(2, 0, 0, types=True, dedup=True, outcomes='{"nil"}', shut='{"TERM"}'),
+              invariants=["AtReturn"])
+    if demos:
+        r = ctx.tlc(d, "SignalHandler", "SigMC_dedup.cfg", label="signal-mc-dedup-by-value(expected to fail)",
+                    expect_ok=False, count=False)
+        if r.violated != "AtReturn":
+            raise CheckerError("the DedupByValue variant of SignalHandler.tla should violate AtReturn, got %r" % r.violated)
+        ctx.extra["design_level_service_types_check"] = ("AtReturn violated when registrations are de-duplicated by "
+                                                         "value (as expected)")
     write_cfg(d / "RWMC_run.cfg", "WSpec", rw_consts(3 if q else 5, True, max_extra=1 if q else 2), invariants=RW_INV,
               properties=["StoppedIsFinal", "EventuallyStops"])
     ctx.tlc(d, "RefreshWorker", "RWMC_run.cfg", label="refresh-mc", timeout=1200)
@@ -194,12 +218,19 @@ def run_g(ctx, d, q):
     write_cfg(d / "SigGen_kinds.cfg", "SGSpec", sig_consts(3 if q else 4, 0, 0, kinds=True),
               invariants=["SEmit", "AtReturn", "ReverseOrder", "AtMostOnce"])
     ctx.tlc(d, "SignalHandlerGen", "SigGen_kinds.cfg", label="signal-gen-kinds", timeout=1200)
+    # ... and every vector of dynamic service types (pointer, comparable value with equal fields, func adapter,
+    # non-comparable value, zero-size type), registered one by one and all at once.
+    write_cfg(d / "SigGen_types.cfg", "SGSpec",
+              sig_consts(3 if q else 4, 0, 0, types=True, outcomes='{"nil", "err"}', shut='{"TERM"}',
+                         splits='{"each", "all"}'),
+              invariants=["SEmit", "Registered", "AtReturn", "ReverseOrder", "AtMostOnce"])
+    ctx.tlc(d, "SignalHandlerGen", "SigGen_types.cfg", label="signal-gen-types", timeout=1200)
     # ... and every registration plan.
     write_cfg(d / "SigGen_reg.cfg", "SGSpec",
               sig_consts(4, 0, 0, reg=True, outcomes='{"nil", "err"}', shut='{"TERM"}'),
               invariants=["SEmit", "Registered", "AtReturn", "ReverseOrder", "AtMostOnce"])
     ctx.tlc(d, "SignalHandlerGen", "SigGen_reg.cfg", label="signal-gen-registration", timeout=1200)
-    write_cfg(d / "RWGen_run.cfg", "WGSpec", rw_consts(5 if q else 8, False, gen=True),
+    write_cfg(d / "RWGen_run.cfg", "WGSpec", rw_consts(5 if q else 8, False, gen=True, ctx_kinds='{"wctxerr"}' if q else '{"ctxerr", "wctxerr", "cause"}'),
               invariants=["WEmit", "OneRefreshPerTick", "ErrorsHandledOnce", "ScheduleConsulted",
                           "SequentialNoRefreshAfterShutdown", "DoneClosedFirst", "WindowNeverTicks", "StopsOnlyOnShutdown",
                           "ShutdownResult"])
